@@ -76,6 +76,7 @@ func TestC05(t *testing.T) {
 	st.SetRule(ruleC05)
 	rapid.Check(t, func(rt *rapid.T) {
 		w := newWorld("C05", worldCfg{V1: true, V2: true, WhiteBox: true, IndexReads: true})
+		w.drawCheckPeriod(rt)
 		s := drawSchema(rt, "tbl", schemaCfg{KeyTypes: []string{"S"}, MaxIndexes: 2})
 		o := avOpts(2, true)
 		g := newTgen(rt, s, o, rapid.IntRange(3, 7).Draw(rt, "poolSize"))
@@ -147,8 +148,9 @@ func TestC05(t *testing.T) {
 				_, _, f := w.do(model.Op{Kind: "Put", Table: s.Table, Item: g.item(rt)})
 				fail(f)
 			},
-			"": func(rt *rapid.T) { fail(w.check()) },
+			"": func(rt *rapid.T) { fail(w.maybeCheck()) },
 		})
+		fail(w.check())
 	})
 }
 
